@@ -1,1 +1,919 @@
-(* placeholder *)
+(* Proofs about the executors of Exec.v: frame conditions (any schedule), exact contents (fault-free driver),
+   template instantiation, well-formedness, statement sequences. *)
+From Coq Require Import List Bool NArith ZArith Arith Lia.
+From Coq.Strings Require Import Byte.
+From BWExec Require Import Base Values Store Driver Exec Spec BaseProofs StoreProofs.
+Import ListNotations.
+
+(* ------------------------------------------------------------------ driver calls, any schedule *)
+
+(* a step of the driver: names kept, graphs other than those in `touched` kept *)
+Definition frame_on (touched : list str) (s s' : store) : Prop :=
+  names s' = names s /\ forall g, ~ In g touched -> get s' g = get s g.
+
+Lemma frame_on_refl : forall l s, frame_on l s s.
+Proof. intros l s. split; [reflexivity | intros; reflexivity]. Qed.
+
+Lemma frame_on_trans : forall l s1 s2 s3, frame_on l s1 s2 -> frame_on l s2 s3 -> frame_on l s1 s3.
+Proof.
+  intros l s1 s2 s3 [N1 F1] [N2 F2]. split; [congruence|]. intros g Hg. rewrite F2, F1 by exact Hg. reflexivity.
+Qed.
+
+Lemma frame_on_mono : forall l l' s s', (forall g, In g l -> In g l') -> frame_on l s s' -> frame_on l' s s'.
+Proof. intros l l' s s' Hsub [N F]. split; [exact N|]. intros g Hg. apply F. intro X. apply Hg. apply Hsub. exact X. Qed.
+
+Lemma d_graph_store : forall sch d n, d_store (snd (d_graph sch d n)) = d_store d.
+Proof. intros. reflexivity. Qed.
+
+Lemma d_graph_ok : forall sch d n d', d_graph sch d n = (true, d') -> has (d_store d) n = true.
+Proof.
+  intros sch d n d' H. unfold d_graph in H. injection H as H1 H2. apply andb_true_iff in H1. tauto.
+Qed.
+
+Lemma apply_write_frame : forall add s n ts, frame_on [n] s (apply_write add s n ts).
+Proof.
+  intros add s n ts. unfold apply_write. split; [apply names_set_graph|].
+  intros g Hg. apply get_set_graph_other. intro E. apply Hg. left. exact E.
+Qed.
+
+Lemma d_write_frame : forall add sch d n ts ok d', d_write add sch d n ts = (ok, d') -> frame_on [n] (d_store d) (d_store d').
+Proof.
+  intros add sch d n ts ok d' H. unfold d_write in H.
+  destruct (sch _); inversion H; subst; cbn; try apply frame_on_refl; apply apply_write_frame.
+Qed.
+
+Lemma x_update_frame : forall add sch ts gbs d ok d',
+  x_update add sch d ts gbs = (ok, d') -> frame_on gbs (d_store d) (d_store d').
+Proof.
+  intros add sch ts gbs. induction gbs as [|g r IH]; intros d ok d' H; cbn [x_update] in H.
+  - inversion H; subst. apply frame_on_refl.
+  - destruct (d_graph sch d g) as [okg d1] eqn:E1.
+    assert (S1 : d_store d1 = d_store d) by (unfold d_graph in E1; inversion E1; reflexivity).
+    destruct (if okg then d_write add sch d1 g ts else (false, d1)) as [ok1 d2] eqn:E2.
+    destruct (x_update add sch d2 ts r) as [ok2 d3] eqn:E3. inversion H; subst. clear H.
+    apply IH in E3. apply frame_on_trans with (s2 := d_store d2).
+    + destruct okg.
+      * apply d_write_frame in E2. rewrite S1 in E2. eapply frame_on_mono; [|exact E2]. intros x [X|[]]. left. exact X.
+      * inversion E2; subst. rewrite S1. apply frame_on_refl.
+    + eapply frame_on_mono; [|exact E3]. intros x X. right. exact X.
+Qed.
+
+Lemma x_init_store : forall sch gs d ok d', x_init sch d gs = (ok, d') -> d_store d' = d_store d.
+Proof.
+  intros sch gs. induction gs as [|g r IH]; intros d ok d' H; cbn [x_init] in H.
+  - inversion H; reflexivity.
+  - destruct (d_graph sch d g) as [okg d1] eqn:E1.
+    assert (S1 : d_store d1 = d_store d) by (unfold d_graph in E1; inversion E1; reflexivity).
+    destruct okg; [apply IH in H; congruence | inversion H; subst; exact S1].
+Qed.
+
+Lemma x_reads_store : forall sch gs d ok d', x_reads sch d gs = (ok, d') -> d_store d' = d_store d.
+Proof.
+  intros sch gs. induction gs as [|g r IH]; intros d ok d' H; cbn [x_reads] in H.
+  - inversion H; reflexivity.
+  - destruct (d_read sch d g) as [okg d1] eqn:E1.
+    assert (S1 : d_store d1 = d_store d) by (unfold d_read in E1; inversion E1; reflexivity).
+    destruct okg; [apply IH in H; congruence | inversion H; subst; exact S1].
+Qed.
+
+Lemma writer_frame : forall add bulk sch outs sent d pending okacc p' ok' d',
+  writer add bulk sch d outs sent pending okacc = (p', ok', d') -> frame_on outs (d_store d) (d_store d').
+Proof.
+  intros add bulk sch outs sent. induction sent as [|t r IH]; intros d pending okacc p' ok' d' H; cbn [writer] in H.
+  - inversion H; subst. apply frame_on_refl.
+  - destruct (bulk <=? length (pending ++ [t])).
+    + destruct (x_update add sch d (pending ++ [t]) outs) as [ok d1] eqn:E. apply x_update_frame in E.
+      apply IH in H. eapply frame_on_trans; eassumption.
+    + apply IH in H. exact H.
+Qed.
+
+Lemma x_construct_frame : forall add bulk sch d tmpl outs ins q draw r d',
+  x_construct add bulk sch d tmpl outs ins q draw = (r, d') -> frame_on outs (d_store d) (d_store d').
+Proof.
+  intros add bulk sch d tmpl outs ins q draw r d' H. unfold x_construct in H.
+  destruct (x_init sch d (ins ++ outs)) as [ok d1] eqn:E1. apply x_init_store in E1.
+  destruct ok; cbn [negb] in H; [|inversion H; subst; rewrite E1; apply frame_on_refl].
+  destruct (x_reads sch d1 (q_reads q)) as [okr d2] eqn:E2. apply x_reads_store in E2.
+  destruct okr; cbn [negb] in H; [|inversion H; subst; rewrite E2, E1; apply frame_on_refl].
+  destruct (q_ok q); cbn [negb] in H; [|inversion H; subst; rewrite E2, E1; apply frame_on_refl].
+  destruct (produce _ _ _ _ _) as [sent okp].
+  destruct (writer add bulk sch d2 outs sent [] true) as [[pending okw] d3] eqn:E3. apply writer_frame in E3.
+  rewrite E2, E1 in E3.
+  destruct (if is_empty pending then (true, d3) else x_update add sch d3 pending outs) as [okf d4] eqn:E4.
+  assert (F4 : frame_on outs (d_store d3) (d_store d4)).
+  { destruct (is_empty pending); [inversion E4; subst; apply frame_on_refl | apply x_update_frame in E4; exact E4]. }
+  assert (d' = d4) by (destruct okp; inversion H; reflexivity). subst d'.
+  eapply frame_on_trans; eassumption.
+Qed.
+
+Lemma x_create_frame : forall sch gs d ok d', x_create sch d gs = (ok, d') ->
+  forall g, ~ In g gs -> get (d_store d') g = get (d_store d) g.
+Proof.
+  intros sch gs. induction gs as [|n r IH]; intros d ok d' H g Hg; cbn [x_create] in H.
+  - inversion H; reflexivity.
+  - destruct (d_new_graph sch d n) as [ok1 d1] eqn:E1. destruct (x_create sch d1 r) as [ok2 d2] eqn:E2.
+    inversion H; subst. rewrite (IH _ _ _ E2 g) by (intro X; apply Hg; right; exact X).
+    unfold d_new_graph in E1. destruct (is_fail _); [inversion E1; reflexivity|].
+    destruct (new_graph (d_store d) n) as [s'|] eqn:N; inversion E1; subst; cbn; [|reflexivity].
+    apply new_graph_spec in N. destruct N as [_ [_ [_ N]]]. apply N. intro X. apply Hg. left. congruence.
+Qed.
+
+Lemma x_drop_frame : forall sch gs d ok d', x_drop sch d gs = (ok, d') ->
+  forall g, ~ In g gs -> get (d_store d') g = get (d_store d) g.
+Proof.
+  intros sch gs. induction gs as [|n r IH]; intros d ok d' H g Hg; cbn [x_drop] in H.
+  - inversion H; reflexivity.
+  - destruct (d_delete_graph sch d n) as [ok1 d1] eqn:E1. destruct (x_drop sch d1 r) as [ok2 d2] eqn:E2.
+    inversion H; subst. rewrite (IH _ _ _ E2 g) by (intro X; apply Hg; right; exact X).
+    unfold d_delete_graph in E1. destruct (is_fail _); [inversion E1; reflexivity|].
+    destruct (delete_graph (d_store d) n) as [s'|] eqn:N; inversion E1; subst; cbn; [|reflexivity].
+    apply delete_graph_spec in N. destruct N as [_ [_ [N _]]]. apply N. intro X. apply Hg. left. congruence.
+Qed.
+
+(* the graphs a statement may write *)
+Definition targets (s : stmt) : list str :=
+  match s with
+  | SCreate gs | SDrop gs => gs
+  | SInsert gs _ | SDelete gs _ => gs
+  | SConstruct _ _ outs _ _ _ _ => outs
+  | _ => []
+  end.
+
+Lemma xexec_frame : forall bulk sch d s r d', xexec bulk sch d s = (r, d') ->
+  forall g, ~ In g (targets s) -> get (d_store d') g = get (d_store d) g.
+Proof.
+  intros bulk sch d s r d' H g Hg. unfold xexec in H.
+  destruct (static_ok s); cbn [negb] in H; [|inversion H; reflexivity].
+  destruct s; cbn [targets] in Hg.
+  - destruct (x_create sch d gs) as [ok d1] eqn:E. inversion H; subst. eapply x_create_frame; eassumption.
+  - destruct (x_drop sch d gs) as [ok d1] eqn:E. inversion H; subst. eapply x_drop_frame; eassumption.
+  - destruct (x_update true sch d ts outs) as [ok d1] eqn:E. inversion H; subst. apply x_update_frame in E. apply E. exact Hg.
+  - destruct (x_update false sch d ts ins) as [ok d1] eqn:E. inversion H; subst. apply x_update_frame in E. apply E. exact Hg.
+  - apply x_construct_frame in H. apply H. exact Hg.
+  - unfold x_select in H. destruct (x_init sch d ins) as [ok d1] eqn:E1. apply x_init_store in E1.
+    destruct ok; cbn [negb] in H; [|inversion H; subst; rewrite E1; reflexivity].
+    destruct (x_reads sch d1 (q_reads q)) as [okr d2] eqn:E2. apply x_reads_store in E2.
+    destruct okr; cbn [negb] in H; [|inversion H; subst; rewrite E2, E1; reflexivity].
+    destruct (q_ok q); inversion H; subst; rewrite E2, E1; reflexivity.
+  - unfold x_show in H. unfold d_graph_names in H. destruct (sch _); inversion H; reflexivity.
+  - inversion H; reflexivity.
+Qed.
+
+(* ------------------------------------------------------------------ the fault-free driver *)
+
+Lemma d_graph_nf : forall d n, d_graph no_faults d n = (has (d_store d) n, mkD (d_store d) (d_log d ++ [next_id (d_log d) KGraph n])).
+Proof. intros. reflexivity. Qed.
+
+Lemma d_write_nf : forall add d n ts,
+  d_write add no_faults d n ts =
+  (true, mkD (apply_write add (d_store d) n ts) (d_log d ++ [next_id (d_log d) (if add then KAdd else KRemove) n])).
+Proof. intros. reflexivity. Qed.
+
+(* contents after writing ts: union (add) or difference (remove) *)
+Definition W (add : bool) (ts old : list triple) (t : triple) : Prop :=
+  if add then In t old \/ In t ts else In t old /\ ~ In t ts.
+
+Lemma W_congr : forall add ts a b t, (forall x, In x a <-> In x b) -> (W add ts a t <-> W add ts b t).
+Proof. intros add ts a b t H. unfold W. destruct add; rewrite (H t); tauto. Qed.
+
+Lemma W_idem : forall add ts a b t, (forall x, In x a <-> W add ts b x) -> (W add ts a t <-> W add ts b t).
+Proof. intros add ts a b t H. unfold W in *. destruct add; rewrite (H t); tauto. Qed.
+
+Lemma W_app : forall add ts1 ts2 a b t, (forall x, In x a <-> W add ts1 b x) -> (W add ts2 a t <-> W add (ts1 ++ ts2) b t).
+Proof. intros add ts1 ts2 a b t H. unfold W in *. destruct add; rewrite (H t), in_app_iff; tauto. Qed.
+
+Lemma W_nil : forall add a t, W add [] a t <-> In t a.
+Proof. intros add a t. unfold W. destruct add; cbn; tauto. Qed.
+
+Lemma apply_write_W : forall add s n ts, has s n = true ->
+  forall t, In t (getd (apply_write add s n ts) n) <-> W add ts (getd s n) t.
+Proof.
+  intros add s n ts Hh t. unfold apply_write. rewrite getd_set_graph_same by exact Hh. unfold W.
+  destruct add; [apply add_triples_In | apply remove_triples_In].
+Qed.
+
+Lemma forallb_has_names : forall s s' l, names s' = names s -> forallb (has s') l = forallb (has s) l.
+Proof.
+  intros s s' l Hn. induction l as [|g l IH]; cbn; [reflexivity|]. rewrite IH. f_equal. destruct (has s g) eqn:E.
+  - apply has_In_names. rewrite Hn. apply has_In_names. exact E.
+  - destruct (has s' g) eqn:E'; [|reflexivity]. apply has_In_names in E'. rewrite Hn in E'. apply has_In_names in E'. congruence.
+Qed.
+
+Lemma has_names_eq : forall s s' g, names s' = names s -> has s' g = has s g.
+Proof.
+  intros s s' g Hn. pose proof (forallb_has_names s s' [g] Hn) as X. cbn in X. rewrite !andb_true_r in X. exact X.
+Qed.
+
+Lemma x_update_nf : forall add ts gbs d ok d',
+  x_update add no_faults d ts gbs = (ok, d') ->
+  ok = forallb (has (d_store d)) gbs /\
+  (forall g, In g gbs -> has (d_store d) g = true ->
+             forall t, In t (getd (d_store d') g) <-> W add ts (getd (d_store d) g) t).
+Proof.
+  intros add ts gbs. induction gbs as [|g r IH]; intros d ok d' H; cbn [x_update] in H.
+  - inversion H; subst. split; [reflexivity | intros g []].
+  - rewrite d_graph_nf in H. destruct (has (d_store d) g) eqn:Hg.
+    + rewrite d_write_nf in H.
+      match type of H with context [x_update add no_faults ?D ts r] => set (d2 := D) in * end.
+      destruct (x_update add no_faults d2 ts r) as [ok2 d3] eqn:E3. inversion H; subst ok d'. clear H.
+      pose proof (x_update_frame _ _ _ _ _ _ _ E3) as F3. apply IH in E3. destruct E3 as [Hok Hc].
+      assert (S2 : d_store d2 = apply_write add (d_store d) g ts) by reflexivity.
+      assert (N2 : names (d_store d2) = names (d_store d)) by (rewrite S2; apply names_set_graph).
+      split.
+      * cbn [forallb]. rewrite Hg. cbn. rewrite Hok. apply forallb_has_names. exact N2.
+      * intros g' Hin Hh t. destruct (mem str_eqb g' r) eqn:M.
+        -- apply (mem_In str_eqb str_eqb_ok) in M. rewrite (Hc g' M) by (rewrite (has_names_eq _ _ _ N2); exact Hh).
+           destruct (str_eqb g g') eqn:E.
+           ++ apply str_eqb_spec in E. subst g'. apply W_idem. intro x. rewrite S2. apply apply_write_W. exact Hg.
+           ++ apply str_eqb_neq in E. rewrite S2. unfold apply_write. rewrite getd_set_graph_other by exact E. tauto.
+        -- apply (mem_false str_eqb str_eqb_ok) in M. destruct Hin as [E|Hin]; [subst g'|contradiction].
+           destruct F3 as [_ F3]. unfold getd at 1. rewrite (F3 g M). fold (getd (d_store d2) g). rewrite S2.
+           apply apply_write_W. exact Hg.
+    + destruct (x_update add no_faults _ ts r) as [ok2 d3] eqn:E3. inversion H; subst ok d'. clear H.
+      apply IH in E3. cbn [d_store] in E3. destruct E3 as [Hok Hc]. split.
+      * cbn [forallb]. rewrite Hg. reflexivity.
+      * intros g' Hin Hh t. destruct Hin as [E|Hin]; [subst g'; congruence|]. apply Hc; assumption.
+Qed.
+
+(* ------------------------------------------------------------------ INSERT / DELETE *)
+
+Lemma exec_update_spec : forall (add : bool) bulk st gs ts r st',
+  exec bulk st (if add then SInsert gs ts else SDelete gs ts) = (r, st') -> gs <> [] -> ts <> [] ->
+  names st' = names st /\
+  (forall g, ~ In g gs -> get st' g = get st g) /\
+  (forall g, In g gs -> has st g = true -> forall t, In t (getd st' g) <-> W add ts (getd st g) t) /\
+  (r = ROk <-> forall g, In g gs -> has st g = true) /\
+  (r = ROk \/ r = RErr EUpdate).
+Proof.
+  intros add bulk st gs ts r st' H Hgs Hts.
+  assert (S : static_ok (if add then SInsert gs ts else SDelete gs ts) = true).
+  { destruct add; cbn; destruct gs; try congruence; destruct ts; try congruence; reflexivity. }
+  unfold exec in H.
+  assert (X : xexec bulk no_faults (mkD st []) (if add then SInsert gs ts else SDelete gs ts) =
+              (let '(ok, d') := x_update add no_faults (mkD st []) ts gs in (if ok then ROk else RErr EUpdate, d'))).
+  { unfold xexec. rewrite S. destruct add; reflexivity. }
+  rewrite X in H. clear X S.
+  destruct (x_update add no_faults (mkD st []) ts gs) as [ok d'] eqn:E. inversion H; subst r st'. clear H.
+  pose proof (x_update_frame _ _ _ _ _ _ _ E) as [N F]. apply x_update_nf in E. destruct E as [Hok Hc]. cbn [d_store] in *.
+  split; [exact N|]. split; [exact F|]. split; [exact Hc|]. split.
+  - subst ok. rewrite <- forallb_forall. destruct (forallb (has st) gs); split; intro H; try reflexivity; discriminate.
+  - destruct ok; auto.
+Qed.
+
+(* ------------------------------------------------------------------ CREATE / DROP *)
+
+Lemma new_graph_step : forall d n,
+  let ok1 := fst (d_new_graph no_faults d n) in
+  let d1 := snd (d_new_graph no_faults d n) in
+  ok1 = negb (has (d_store d) n) /\
+  (forall g, has (d_store d1) g = has (d_store d) g || str_eqb g n) /\
+  (forall g, has (d_store d) g = true -> get (d_store d1) g = get (d_store d) g) /\
+  (has (d_store d) n = false -> get (d_store d1) n = Some []).
+Proof.
+  intros d n. unfold d_new_graph. cbn [no_faults is_fail].
+  destruct (new_graph (d_store d) n) as [s'|] eqn:N; cbn [fst snd d_store].
+  - apply new_graph_spec in N. destruct N as [Hh [_ [Hn Ho]]]. rewrite Hh. split; [reflexivity|]. split; [|split].
+    + intro g. destruct (str_eqb g n) eqn:E.
+      * apply str_eqb_spec in E. subst g. unfold has at 1. rewrite Hn. rewrite orb_true_r. reflexivity.
+      * apply str_eqb_neq in E. unfold has. rewrite (Ho g E). rewrite orb_false_r. reflexivity.
+    + intros g Hg. apply Ho. intro E. subst g. congruence.
+    + intros _. exact Hn.
+  - apply new_graph_none in N. rewrite N. split; [reflexivity|]. split; [|split].
+    + intro g. destruct (str_eqb g n) eqn:E; [|rewrite orb_false_r; reflexivity].
+      apply str_eqb_spec in E. subst g. rewrite N. reflexivity.
+    + intros; reflexivity.
+    + intro X. congruence.
+Qed.
+
+Lemma delete_graph_step : forall d n,
+  let ok1 := fst (d_delete_graph no_faults d n) in
+  let d1 := snd (d_delete_graph no_faults d n) in
+  ok1 = has (d_store d) n /\
+  (forall g, has (d_store d1) g = has (d_store d) g && negb (str_eqb g n)) /\
+  (forall g, g <> n -> get (d_store d1) g = get (d_store d) g).
+Proof.
+  intros d n. unfold d_delete_graph. cbn [no_faults is_fail].
+  destruct (delete_graph (d_store d) n) as [s'|] eqn:N; cbn [fst snd d_store].
+  - apply delete_graph_spec in N. destruct N as [Hh [Hn [Ho _]]]. rewrite Hh. split; [reflexivity|]. split.
+    + intro g. destruct (str_eqb g n) eqn:E.
+      * apply str_eqb_spec in E. subst g. unfold has at 1. rewrite Hn. rewrite andb_false_r. reflexivity.
+      * apply str_eqb_neq in E. unfold has. rewrite (Ho g E). rewrite andb_true_r. reflexivity.
+    + exact Ho.
+  - apply delete_graph_none in N. rewrite N. split; [reflexivity|]. split; [|intros; reflexivity].
+    intro g. destruct (str_eqb g n) eqn:E; [|rewrite andb_true_r; reflexivity].
+    apply str_eqb_spec in E. subst g. rewrite N. reflexivity.
+Qed.
+
+Lemma x_create_nf : forall gs d ok d', x_create no_faults d gs = (ok, d') ->
+  (forall g, has (d_store d') g = has (d_store d) g || mem str_eqb g gs) /\
+  (forall g, has (d_store d) g = true -> get (d_store d') g = get (d_store d) g) /\
+  (forall g, In g gs -> has (d_store d) g = false -> get (d_store d') g = Some []) /\
+  (ok = true <-> NoDup gs /\ forall g, In g gs -> has (d_store d) g = false).
+Proof.
+  induction gs as [|n r IH]; intros d ok d' H; cbn [x_create] in H.
+  - inversion H; subst. split; [intro g; cbn; rewrite orb_false_r; reflexivity|]. split; [intros; reflexivity|].
+    split; [intros g []|]. split; [intros _; split; [constructor | intros g []] | reflexivity].
+  - pose proof (new_graph_step d n) as ST. cbv zeta in ST.
+    destruct (d_new_graph no_faults d n) as [ok1 d1] eqn:E1. cbn [fst snd] in ST. destruct ST as [S1 [S2 [S3 S4]]].
+    destruct (x_create no_faults d1 r) as [ok2 d2] eqn:E2. inversion H; subst ok d'. clear H.
+    apply IH in E2. destruct E2 as [I1 [I2 [I3 I4]]]. split; [|split; [|split]].
+    + intro g. rewrite I1, S2. cbn [mem]. rewrite orb_assoc. reflexivity.
+    + intros g Hg. rewrite I2 by (rewrite S2, Hg; reflexivity). apply S3. exact Hg.
+    + intros g Hin Hg. destruct (str_eqb g n) eqn:E.
+      * apply str_eqb_spec in E. subst g. rewrite I2 by (rewrite S2, str_eqb_refl, orb_true_r; reflexivity). apply S4. exact Hg.
+      * destruct Hin as [X|Hin]; [subst g; rewrite str_eqb_refl in E; discriminate|].
+        apply I3; [exact Hin|]. rewrite S2, Hg, E. reflexivity.
+    + rewrite andb_true_iff, I4, S1, negb_true_iff. split.
+      * intros [Hn [Hnd Hall]]. split.
+        -- constructor; [|exact Hnd]. intro X. specialize (Hall n X). rewrite S2, str_eqb_refl, orb_true_r in Hall. discriminate.
+        -- intros g [X|X]; [subst; exact Hn|]. specialize (Hall g X). rewrite S2 in Hall. apply orb_false_iff in Hall. tauto.
+      * intros [Hnd Hall]. inversion Hnd; subst. split; [apply Hall; left; reflexivity|]. split; [assumption|].
+        intros g X. rewrite S2. apply orb_false_iff. split; [apply Hall; right; exact X|].
+        apply str_eqb_neq. intro E. subst g. contradiction.
+Qed.
+
+Lemma x_drop_nf : forall gs d ok d', x_drop no_faults d gs = (ok, d') ->
+  (forall g, has (d_store d') g = has (d_store d) g && negb (mem str_eqb g gs)) /\
+  (forall g, ~ In g gs -> get (d_store d') g = get (d_store d) g) /\
+  (ok = true <-> NoDup gs /\ forall g, In g gs -> has (d_store d) g = true).
+Proof.
+  induction gs as [|n r IH]; intros d ok d' H; cbn [x_drop] in H.
+  - inversion H; subst. split; [intro g; cbn; rewrite andb_true_r; reflexivity|]. split; [intros; reflexivity|].
+    split; [intros _; split; [constructor | intros g []] | reflexivity].
+  - pose proof (delete_graph_step d n) as ST. cbv zeta in ST.
+    destruct (d_delete_graph no_faults d n) as [ok1 d1] eqn:E1. cbn [fst snd] in ST. destruct ST as [S1 [S2 S3]].
+    destruct (x_drop no_faults d1 r) as [ok2 d2] eqn:E2. inversion H; subst ok d'. clear H.
+    apply IH in E2. destruct E2 as [I1 [I2 I4]]. split; [|split].
+    + intro g. rewrite I1, S2. cbn [mem]. rewrite negb_orb, andb_assoc. reflexivity.
+    + intros g Hg. rewrite I2 by (intro X; apply Hg; right; exact X). apply S3. intro E. apply Hg. left. congruence.
+    + rewrite andb_true_iff, I4, S1. split.
+      * intros [Hn [Hnd Hall]]. split.
+        -- constructor; [|exact Hnd]. intro X. specialize (Hall n X). rewrite S2, str_eqb_refl, andb_false_r in Hall. discriminate.
+        -- intros g [X|X]; [subst; exact Hn|]. specialize (Hall g X). rewrite S2 in Hall. apply andb_true_iff in Hall. tauto.
+      * intros [Hnd Hall]. inversion Hnd; subst. split; [apply Hall; left; reflexivity|]. split; [assumption|].
+        intros g X. rewrite S2. apply andb_true_iff. split; [apply Hall; right; exact X|].
+        apply negb_true_iff. apply str_eqb_neq. intro E. subst g. contradiction.
+Qed.
+
+Lemma exec_create_spec : forall bulk st gs r st', exec bulk st (SCreate gs) = (r, st') -> gs <> [] ->
+  (forall g, has st' g = has st g || mem str_eqb g gs) /\
+  (forall g, has st g = true -> get st' g = get st g) /\
+  (forall g, In g gs -> has st g = false -> get st' g = Some []) /\
+  (r = ROk <-> NoDup gs /\ forall g, In g gs -> has st g = false) /\ (r = ROk \/ r = RErr EUpdate).
+Proof.
+  intros bulk st gs r st' H Hgs. unfold exec, xexec in H.
+  assert (S : static_ok (SCreate gs) = true) by (destruct gs; [congruence | reflexivity]). rewrite S in H. cbn [negb] in H.
+  destruct (x_create no_faults (mkD st []) gs) as [ok d'] eqn:E. inversion H; subst r st'. clear H.
+  apply x_create_nf in E. cbn [d_store] in E. destruct E as [A [B [C D]]].
+  split; [exact A|]. split; [exact B|]. split; [exact C|]. split.
+  - destruct ok.
+    + split; [intros _; apply D; reflexivity | reflexivity].
+    + split; [discriminate | intro X; apply D in X; discriminate].
+  - destruct ok; auto.
+Qed.
+
+Lemma exec_drop_spec : forall bulk st gs r st', exec bulk st (SDrop gs) = (r, st') -> gs <> [] ->
+  (forall g, has st' g = has st g && negb (mem str_eqb g gs)) /\
+  (forall g, ~ In g gs -> get st' g = get st g) /\
+  (r = ROk <-> NoDup gs /\ forall g, In g gs -> has st g = true) /\ (r = ROk \/ r = RErr EUpdate).
+Proof.
+  intros bulk st gs r st' H Hgs. unfold exec, xexec in H.
+  assert (S : static_ok (SDrop gs) = true) by (destruct gs; [congruence | reflexivity]). rewrite S in H. cbn [negb] in H.
+  destruct (x_drop no_faults (mkD st []) gs) as [ok d'] eqn:E. inversion H; subst r st'. clear H.
+  apply x_drop_nf in E. cbn [d_store] in E. destruct E as [A [B D]].
+  split; [exact A|]. split; [exact B|]. split.
+  - destruct ok.
+    + split; [intros _; apply D; reflexivity | reflexivity].
+    + split; [discriminate | intro X; apply D in X; discriminate].
+  - destruct ok; auto.
+Qed.
+
+(* ------------------------------------------------------------------ CONSTRUCT / DECONSTRUCT: the write side *)
+
+Lemma x_init_nf : forall gs d ok d', x_init no_faults d gs = (ok, d') -> ok = forallb (has (d_store d)) gs.
+Proof.
+  induction gs as [|g r IH]; intros d ok d' H; cbn [x_init] in H.
+  - inversion H; reflexivity.
+  - rewrite d_graph_nf in H. cbn [forallb]. destruct (has (d_store d) g); [apply IH in H; exact H | inversion H; reflexivity].
+Qed.
+
+Lemma x_reads_nf : forall gs d ok d', x_reads no_faults d gs = (ok, d') -> ok = true.
+Proof.
+  induction gs as [|g r IH]; intros d ok d' H; cbn [x_reads] in H.
+  - inversion H; reflexivity.
+  - unfold d_read in H. cbn [no_faults is_fail negb] in H. apply IH in H. exact H.
+Qed.
+
+Lemma forallb_has_In : forall s l, forallb (has s) l = true -> forall g, In g l -> has s g = true.
+Proof. intros s l H g Hg. rewrite forallb_forall in H. apply H. exact Hg. Qed.
+
+Lemma writer_nf : forall (add : bool) bulk outs sent d pending okacc p' ok' d',
+  writer add bulk no_faults d outs sent pending okacc = (p', ok', d') ->
+  forallb (has (d_store d)) outs = true ->
+  exists written, pending ++ sent = written ++ p' /\ ok' = okacc /\
+    (forall g, In g outs -> forall t, In t (getd (d_store d') g) <-> W add written (getd (d_store d) g) t).
+Proof.
+  intros add bulk outs sent. induction sent as [|x r IH]; intros d pending okacc p' ok' d' H Hall; cbn [writer] in H.
+  - inversion H; subst. exists []. rewrite app_nil_r. split; [reflexivity|]. split; [reflexivity|].
+    intros g Hg t. symmetry. apply W_nil.
+  - destruct (bulk <=? length (pending ++ [x])).
+    + destruct (x_update add no_faults d (pending ++ [x]) outs) as [ok d1] eqn:E.
+      pose proof (x_update_frame _ _ _ _ _ _ _ E) as [N1 _]. apply x_update_nf in E. destruct E as [Hok Hc].
+      rewrite Hall in Hok. subst ok. rewrite andb_true_r in H.
+      apply IH in H; [|rewrite (forallb_has_names _ _ _ N1); exact Hall].
+      destruct H as [w [Hw [Hk Hc']]]. exists ((pending ++ [x]) ++ w). split; [|split; [exact Hk|]].
+      * cbn in Hw. rewrite <- app_assoc. cbn. rewrite <- app_assoc, <- Hw. reflexivity.
+      * intros g Hg t. rewrite (Hc' g Hg t). apply W_app. intro y. apply Hc; [exact Hg | apply (forallb_has_In _ _ Hall); exact Hg].
+    + apply IH in H; [|exact Hall]. destruct H as [w [Hw [Hk Hc']]]. exists w. split; [|split; assumption].
+      rewrite <- Hw, <- app_assoc. reflexivity.
+Qed.
+
+Lemma forallb_app_true : forall {A} (f : A -> bool) a b, forallb f (a ++ b) = true -> forallb f a = true /\ forallb f b = true.
+Proof. intros A f a b H. rewrite forallb_app in H. apply andb_true_iff in H. exact H. Qed.
+
+Lemma x_construct_nf : forall (add : bool) bulk st tmpl outs ins q draw r d',
+  x_construct add bulk no_faults (mkD st []) tmpl outs ins q draw = (r, d') ->
+  let sent := fst (produce (output_bindings tmpl) tmpl (q_rows q) draw 0) in
+  let okp := snd (produce (output_bindings tmpl) tmpl (q_rows q) draw 0) in
+  if forallb (has st) (ins ++ outs) then
+    if q_ok q then
+      r = (if okp then ROk else RErr ETemplate) /\
+      forall g, In g outs -> forall t, In t (getd (d_store d') g) <-> W add sent (getd st g) t
+    else r = RErr EQuery /\ d_store d' = st
+  else r = RErr EInit /\ d_store d' = st.
+Proof.
+  intros add bulk st tmpl outs ins q draw r d' H sent okp. unfold x_construct in H.
+  destruct (x_init no_faults (mkD st []) (ins ++ outs)) as [ok d1] eqn:E1.
+  pose proof (x_init_store _ _ _ _ _ E1) as S1. apply x_init_nf in E1. cbn [d_store] in *. rewrite <- E1.
+  destruct ok; cbn [negb] in H; [|inversion H; subst r d'; split; [reflexivity | exact S1]].
+  destruct (x_reads no_faults d1 (q_reads q)) as [okr d2] eqn:E2.
+  pose proof (x_reads_store _ _ _ _ _ E2) as S2. apply x_reads_nf in E2. subst okr. cbn [negb] in H.
+  destruct (q_ok q); cbn [negb] in H; [|inversion H; subst r d'; split; [reflexivity | congruence]].
+  subst sent okp. destruct (produce (output_bindings tmpl) tmpl (q_rows q) draw 0) as [sent okp]. cbn [fst snd].
+  symmetry in E1. apply forallb_app_true in E1. destruct E1 as [_ Hout].
+  assert (S12 : d_store d2 = st) by congruence.
+  destruct (writer add bulk no_faults d2 outs sent [] true) as [[pending okw] d3] eqn:E3.
+  pose proof (writer_frame _ _ _ _ _ _ _ _ _ _ _ E3) as [N3 _].
+  apply writer_nf in E3; [|rewrite S12; exact Hout]. destruct E3 as [w [Hw [Hk Hc]]]. subst okw. cbn [app] in Hw.
+  rewrite S12 in *.
+  destruct (if is_empty pending then (true, d3) else x_update add no_faults d3 pending outs) as [okf d4] eqn:E4.
+  assert (X : okf = true /\ forall g, In g outs -> forall t, In t (getd (d_store d4) g) <-> W add sent (getd st g) t).
+  { destruct pending as [|p ps]; cbn [is_empty] in E4.
+    - inversion E4; subst okf d4. split; [reflexivity|]. rewrite app_nil_r in Hw. subst w. exact Hc.
+    - apply x_update_nf in E4. destruct E4 as [Hok Hc4]. rewrite (forallb_has_names _ _ _ N3), Hout in Hok. split; [exact Hok|].
+      intros g Hg t. rewrite (Hc4 g Hg) by (rewrite (has_names_eq _ _ _ N3); apply (forallb_has_In _ _ Hout); exact Hg).
+      rewrite Hw. apply W_app. intro y. apply Hc. exact Hg. }
+  destruct X as [Hf Hc4]. subst okf. cbn [andb] in H.
+  destruct okp; inversion H; subst r d'; split; try reflexivity; exact Hc4.
+Qed.
+
+(* ------------------------------------------------------------------ CONSTRUCT: the template side *)
+
+Lemma triple_new_some : forall s p o t, triple_new s p o = Some t -> exists a b c, s = Some a /\ p = Some b /\ o = Some c /\ t = (a, b, c).
+Proof.
+  intros [a|] [b|] [c|] t H; cbn in H; try discriminate. inversion H. exists a, b, c. repeat split; reflexivity.
+Qed.
+
+Definition extra_rel (bs : list str) (r : row) (b : N) (p : pop) (e : triple) : Prop :=
+  exists rp ro, process_pop bs r p = Some (Some rp, Some ro) /\ e = (Blank b, rp, ro).
+
+Lemma extras_ok : forall bs r b ps l, extras bs r b ps = (l, true) -> Forall2 (extra_rel bs r b) ps l.
+Proof.
+  intros bs r b ps. induction ps as [|p ps IH]; intros l H; cbn [extras] in H.
+  - inversion H. constructor.
+  - destruct (process_pop bs r p) as [[rp ro]|] eqn:E; [|discriminate].
+    destruct (triple_new (Some (Blank b)) rp ro) as [t|] eqn:T; [|discriminate].
+    destruct (extras bs r b ps) as [l' ok] eqn:E'. inversion H; subst. clear H.
+    apply triple_new_some in T. destruct T as [a [x [y [Ha [Hx [Hy Ht]]]]]]. inversion Ha; subst.
+    constructor; [exists x, y; split; [exact E | reflexivity] | apply IH; reflexivity].
+Qed.
+
+Lemma inst_row_ok : forall bs c r b l drew, inst_row bs c r b = (l, true, drew) ->
+  group_of bs c r b l /\ drew = negb (is_empty (cRest c)).
+Proof.
+  intros bs c r b l drew H. unfold inst_row in H. destruct (process_cc bs r c) as [t|] eqn:E; [|discriminate].
+  destruct (cRest c) as [|p ps] eqn:R.
+  - inversion H; subst. split; [apply G_plain; assumption | reflexivity].
+  - destruct (extras bs r b (p :: ps)) as [l' ok] eqn:X. inversion H; subst. split; [|reflexivity].
+    apply G_reified; [rewrite R; discriminate | exact E |]. rewrite R. apply extras_ok. exact X.
+Qed.
+
+Lemma produced_app : forall bs draw i w1 gs1 i1 w2 gs2 i2,
+  produced bs draw i w1 gs1 i1 -> produced bs draw i1 w2 gs2 i2 -> produced bs draw i (w1 ++ w2) (gs1 ++ gs2) i2.
+Proof.
+  intros bs draw i w1 gs1 i1 w2 gs2 i2 H1 H2. induction H1; cbn.
+  - exact H2.
+  - apply P_plain; auto.
+  - apply P_reified; auto.
+Qed.
+
+Lemma produce_rows_ok : forall bs c rows draw i l i', produce_rows bs c rows draw i = (l, true, i') ->
+  exists gs, l = concat gs /\ produced bs draw i (map (pair c) rows) gs i'.
+Proof.
+  intros bs c rows draw. induction rows as [|r rows IH]; intros i l i' H; cbn [produce_rows] in H.
+  - inversion H; subst. exists []. split; [reflexivity | constructor].
+  - destruct (inst_row bs c r (draw i)) as [[g ok] drew] eqn:E. destruct ok; [|discriminate].
+    destruct (produce_rows bs c rows draw (if drew then S i else i)) as [[l' ok'] i''] eqn:E'.
+    inversion H; subst. clear H. apply IH in E'. destruct E' as [gs [Hl Hp]]. subst l'.
+    apply inst_row_ok in E. destruct E as [Hg Hd]. exists (g :: gs). split; [reflexivity|]. cbn [map].
+    destruct (cRest c) as [|p ps] eqn:R; cbn in Hd; subst drew.
+    + apply P_plain; assumption.
+    + apply P_reified; [rewrite R; discriminate | exact Hg | exact Hp].
+Qed.
+
+Lemma produce_ok : forall bs tmpl rows draw i l, produce bs tmpl rows draw i = (l, true) ->
+  exists gs i', l = concat gs /\ produced bs draw i (list_prod tmpl rows) gs i'.
+Proof.
+  intros bs tmpl rows draw. induction tmpl as [|c tmpl IH]; intros i l H; cbn [produce] in H.
+  - inversion H; subst. exists [], i. split; [reflexivity | constructor].
+  - destruct (produce_rows bs c rows draw i) as [[l1 ok] i1] eqn:E. destruct ok; [|discriminate].
+    destruct (produce bs tmpl rows draw i1) as [l2 ok2] eqn:E2. inversion H; subst. clear H.
+    apply produce_rows_ok in E. destruct E as [gs1 [Hl1 Hp1]]. apply IH in E2. destruct E2 as [gs2 [i2 [Hl2 Hp2]]].
+    exists (gs1 ++ gs2), i2. split; [subst; rewrite concat_app; reflexivity|].
+    cbn [list_prod]. eapply produced_app; eassumption.
+Qed.
+
+Lemma produced_length : forall bs draw i w gs i', produced bs draw i w gs i' -> length gs = length w.
+Proof. intros bs draw i w gs i' H. induction H; cbn; congruence. Qed.
+
+Lemma Forall2_len : forall {A B} (R : A -> B -> Prop) l l', Forall2 R l l' -> length l = length l'.
+Proof. intros A B R l l' H. induction H; cbn; congruence. Qed.
+
+(* sizes and subjects of a group *)
+Lemma group_of_length : forall bs c r b g, group_of bs c r b g ->
+  length g = match cRest c with [] => 1 | ps => 3 + length ps end.
+Proof.
+  intros bs c r b g H. destruct H as [t R E | t es R E F].
+  - rewrite R. reflexivity.
+  - destruct t as [[s p] o]. rewrite app_length. apply Forall2_len in F.
+    revert F R. destruct (cRest c) as [|p0 ps]; intros F R; [congruence|]. cbn [reify length] in *. f_equal. symmetry. exact F.
+Qed.
+
+Lemma group_of_subjects : forall bs c r b g, group_of bs c r b g -> cRest c <> [] ->
+  forall t, In t g -> subject_of t = Blank b.
+Proof.
+  intros bs c r b g H Hne. destruct H as [t R E | t es R E F]; [congruence|].
+  intros x Hx. apply in_app_iff in Hx. destruct Hx as [Hx|Hx].
+  - destruct t as [[s p] o]. cbn in Hx. destruct Hx as [X|[X|[X|[]]]]; subst x; reflexivity.
+  - clear R E Hne. induction F as [|p e ps es' Hpe F IH]; [destruct Hx|].
+    destruct Hx as [X|X]; [subst x; destruct Hpe as [rp [ro [_ He]]]; subst e; reflexivity | apply IH; exact X].
+Qed.
+
+(* the reified triple itself is not part of the group (its subject would have to be the fresh blank) *)
+Lemma group_of_not_original : forall bs c r b g t, group_of bs c r b g -> cRest c <> [] ->
+  process_cc bs r c = Some t -> subject_of t <> Blank b -> ~ In t g.
+Proof.
+  intros bs c r b g t H Hne E Hs Hin. apply (group_of_subjects _ _ _ _ _ H Hne) in Hin. contradiction.
+Qed.
+
+(* ------------------------------------------------------------------ which blank ids a group mentions *)
+
+Lemma lookup_blanks : forall r b c, lookup r b = Some c -> incl (cell_blanks c) (row_blanks r).
+Proof.
+  induction r as [|[k v] r IH]; intros b c H; cbn [lookup] in H; [discriminate|].
+  unfold row_blanks. cbn [flat_map snd]. destruct (str_eqb k b).
+  - inversion H; subst. apply incl_appl. apply incl_refl.
+  - apply incl_appr. apply (IH b c H).
+Qed.
+
+Lemma process_pop_blanks : forall bs r p rp o, process_pop bs r p = Some (rp, Some o) ->
+  incl (obj_blanks o) (pop_blanks p ++ row_blanks r).
+Proof.
+  intros bs r p rp o H. unfold process_pop in H.
+  match type of H with (match ?X with _ => _ end) = _ => destruct X as [rprd|]; [|discriminate] end.
+  unfold pop_blanks. destruct (pO p) as [o'|] eqn:EO.
+  - inversion H; subst. apply incl_appl. apply incl_refl.
+  - destruct (mem str_eqb (pOBinding p) bs).
+    + destruct (lookup r (pOBinding p)) as [[n|x|l|t|]|] eqn:L; inversion H; subst; cbn [obj_blanks app];
+        try (intros k []). apply (lookup_blanks _ _ _ L).
+    + destruct (pOTemporal p && nonempty (pOAnchorBinding p)); [|discriminate].
+      destruct (lookup r (pOAnchorBinding p)) as [[n|x|l|t|]|]; try discriminate.
+      destruct (is_empty (pOID p)); inversion H; subst. intros k [].
+Qed.
+
+Lemma incl_pop_cc_first : forall c, incl (pop_blanks (cFirst c)) (cc_blanks c).
+Proof. intros c. unfold cc_blanks. cbn [flat_map]. apply incl_appr. apply incl_appl. apply incl_refl. Qed.
+
+Lemma incl_pop_cc_rest : forall c p, In p (cRest c) -> incl (pop_blanks p) (cc_blanks c).
+Proof.
+  intros c p H. unfold cc_blanks. cbn [flat_map]. apply incl_appr. apply incl_appr.
+  intros k Hk. apply in_flat_map. exists p. split; assumption.
+Qed.
+
+Lemma process_cc_blanks : forall bs r c t, process_cc bs r c = Some t ->
+  incl (triple_blanks t) (cc_blanks c ++ row_blanks r).
+Proof.
+  intros bs r c t H. unfold process_cc in H.
+  assert (HS : forall s, (match cS c with
+                         | Some n => Some (Some n)
+                         | None => if mem str_eqb (cSBinding c) bs
+                                   then match lookup r (cSBinding c) with Some (CNode n) => Some (Some n) | _ => None end
+                                   else Some None
+                         end) = Some (Some s) -> incl (node_blanks s) (cc_blanks c ++ row_blanks r)).
+  { intros s X. destruct (cS c) as [n|] eqn:ES.
+    - inversion X; subst. apply incl_appl. unfold cc_blanks. rewrite ES. apply incl_appl. apply incl_refl.
+    - destruct (mem str_eqb (cSBinding c) bs); [|discriminate].
+      destruct (lookup r (cSBinding c)) as [[n|x|l|t'|]|] eqn:L; try discriminate. inversion X; subst.
+      apply incl_appr. apply (lookup_blanks _ _ _ L). }
+  match type of H with (match ?X with _ => _ end) = _ => destruct X as [s|] eqn:ES; [|discriminate] end.
+  destruct (process_pop bs r (cFirst c)) as [[p o]|] eqn:EP; [|discriminate].
+  apply triple_new_some in H. destruct H as [a [b [o' [Ha [Hb [Ho Ht]]]]]]. subst. unfold triple_blanks.
+  apply incl_app.
+  - apply HS. reflexivity.
+  - apply process_pop_blanks in EP. intros k Hk. apply EP in Hk. apply in_app_iff in Hk. apply in_app_iff.
+    destruct Hk as [Hk|Hk]; [left; apply (incl_pop_cc_first c); exact Hk | right; exact Hk].
+Qed.
+
+Lemma group_of_mentions : forall bs c r b g, group_of bs c r b g ->
+  forall t k, In t g -> mentions k t -> (cRest c <> [] /\ k = b) \/ In k (cc_blanks c ++ row_blanks r).
+Proof.
+  intros bs c r b g H. destruct H as [t R E | t es R E F]; intros x k Hx Hk.
+  - destruct Hx as [X|[]]. subst x. right. apply (process_cc_blanks _ _ _ _ E). exact Hk.
+  - pose proof (process_cc_blanks _ _ _ _ E) as B. destruct t as [[s p] o]. unfold triple_blanks in B.
+    apply in_app_iff in Hx. destruct Hx as [Hx|Hx].
+    + cbn in Hx. destruct Hx as [X|[X|[X|[]]]]; subst x; unfold mentions, triple_blanks in Hk; cbn in Hk.
+      * destruct Hk as [Hk|Hk]; [left; split; [exact R | congruence]|]. right. apply B. apply in_app_iff. left. exact Hk.
+      * destruct Hk as [Hk|[]]. left. split; [exact R | congruence].
+      * destruct Hk as [Hk|Hk]; [left; split; [exact R | congruence]|]. right. apply B. apply in_app_iff. right. exact Hk.
+    + assert (G : forall ps es', Forall2 (fun p e => exists rp ro, process_pop bs r p = Some (Some rp, Some ro) /\ e = (Blank b, rp, ro)) ps es' ->
+                  (forall p, In p ps -> In p (cRest c)) -> In x es' -> (cRest c <> [] /\ k = b) \/ In k (cc_blanks c ++ row_blanks r)).
+      { intros ps es' F'. induction F' as [|p1 e ps' es'' Hpe F' IH]; intros Hsub Hin; [destruct Hin|].
+        destruct Hin as [X|X]; [|apply IH; [intros q Hq; apply Hsub; right; exact Hq | exact X]].
+        subst x. destruct Hpe as [rp [ro [EP He]]]. subst e. unfold mentions, triple_blanks in Hk. cbn in Hk.
+        destruct Hk as [Hk|Hk]; [left; split; [exact R | congruence]|]. right.
+        apply process_pop_blanks in EP. apply EP in Hk. apply in_app_iff in Hk. apply in_app_iff.
+        destruct Hk as [Hk|Hk]; [left; apply (incl_pop_cc_rest c p1); [apply Hsub; left; reflexivity | exact Hk] | right; exact Hk]. }
+      apply (G (cRest c) es F); [auto | exact Hx].
+Qed.
+
+(* every blank mentioned by the produced groups is old or one of the draws made from index i on;
+   a group without `;` mentions only old ones *)
+Lemma produced_mentions : forall bs draw old i w gs i', produced bs draw i w gs i' ->
+  (forall c r, In (c, r) w -> incl (cc_blanks c ++ row_blanks r) old) ->
+  forall g t k, In g gs -> In t g -> mentions k t -> In k old \/ exists j, i <= j /\ k = draw j.
+Proof.
+  intros bs draw old i w gs i' H. induction H as [i | i c r g w gs i' R G P IH | i c r g w gs i' R G P IH]; intros Hold g0 t k Hg Ht Hk.
+  - destruct Hg.
+  - destruct Hg as [X|Hg].
+    + subst g0. destruct (group_of_mentions _ _ _ _ _ G t k Ht Hk) as [[X _]|X]; [congruence|].
+      left. apply (Hold c r); [left; reflexivity | exact X].
+    + apply (IH (fun c' r' Hin => Hold c' r' (or_intror Hin)) g0 t k Hg Ht Hk).
+  - destruct Hg as [X|Hg].
+    + subst g0. destruct (group_of_mentions _ _ _ _ _ G t k Ht Hk) as [[_ X]|X].
+      * right. exists i. split; [lia | exact X].
+      * left. apply (Hold c r); [left; reflexivity | exact X].
+    + destruct (IH (fun c' r' Hin => Hold c' r' (or_intror Hin)) g0 t k Hg Ht Hk) as [X|[j [Hj X]]]; [left; exact X|].
+      right. exists j. split; [lia | exact X].
+Qed.
+
+(* a new blank (not old) is mentioned by at most one group *)
+Lemma produced_sep : forall bs draw old i w gs i', produced bs draw i w gs i' ->
+  fresh_supply old draw ->
+  (forall c r, In (c, r) w -> incl (cc_blanks c ++ row_blanks r) old) ->
+  forall n1 n2 g1 g2 k t1 t2, n1 <> n2 -> nth_error gs n1 = Some g1 -> nth_error gs n2 = Some g2 ->
+    ~ In k old -> In t1 g1 -> mentions k t1 -> In t2 g2 -> mentions k t2 -> False.
+Proof.
+  intros bs draw old i w gs i' H [Hf Hinj]. induction H as [i | i c r g w gs i' R G P IH | i c r g w gs i' R G P IH];
+    intros Hold n1 n2 g1 g2 k t1 t2 Hne H1 H2 Hk I1 M1 I2 M2.
+  - destruct n1; discriminate.
+  - assert (Hold' : forall c' r', In (c', r') w -> incl (cc_blanks c' ++ row_blanks r') old)
+      by (intros c' r' Hin; apply Hold; right; exact Hin).
+    assert (Hhead : forall t, In t g -> mentions k t -> False).
+    { intros t It Mt. destruct (group_of_mentions _ _ _ _ _ G t k It Mt) as [[X _]|X]; [congruence|].
+      apply Hk. apply (Hold c r); [left; reflexivity | exact X]. }
+    destruct n1 as [|n1]; [inversion H1; subst g1; apply (Hhead t1 I1 M1)|].
+    destruct n2 as [|n2]; [inversion H2; subst g2; apply (Hhead t2 I2 M2)|].
+    cbn in H1, H2. apply (IH Hold' n1 n2 g1 g2 k t1 t2); auto.
+  - assert (Hold' : forall c' r', In (c', r') w -> incl (cc_blanks c' ++ row_blanks r') old)
+      by (intros c' r' Hin; apply Hold; right; exact Hin).
+    assert (Hhead : forall t, In t g -> mentions k t -> k = draw i).
+    { intros t It Mt. destruct (group_of_mentions _ _ _ _ _ G t k It Mt) as [[_ X]|X]; [exact X|].
+      exfalso. apply Hk. apply (Hold c r); [left; reflexivity | exact X]. }
+    assert (Htail : forall g' t, In g' gs -> In t g' -> mentions k t -> k <> draw i).
+    { intros g' t Ig It Mt E. destruct (produced_mentions _ _ _ _ _ _ _ P Hold' g' t k Ig It Mt) as [X|[j [Hj X]]]; [contradiction|].
+      rewrite X in E. apply Hinj in E. lia. }
+    destruct n1 as [|n1]; destruct n2 as [|n2]; try congruence; cbn in H1, H2.
+    + inversion H1; subst g1. apply nth_error_In in H2. apply (Htail g2 t2 H2 I2 M2). apply (Hhead t1 I1 M1).
+    + inversion H2; subst g2. apply nth_error_In in H1. apply (Htail g1 t1 H1 I1 M1). apply (Hhead t2 I2 M2).
+    + apply (IH Hold' n1 n2 g1 g2 k t1 t2); auto.
+Qed.
+
+(* ------------------------------------------------------------------ CONSTRUCT / DECONSTRUCT: the statement *)
+
+Lemma exec_construct_unfold : forall (add : bool) bulk st tmpl outs ins wb q draw,
+  static_ok (SConstruct add tmpl outs ins wb q draw) = true ->
+  exec bulk st (SConstruct add tmpl outs ins wb q draw) =
+  (let '(r, d) := x_construct add bulk no_faults (mkD st []) tmpl outs ins q draw in (r, d_store d)).
+Proof. intros. unfold exec, xexec. rewrite H. reflexivity. Qed.
+
+Lemma exec_construct_spec : forall (add : bool) bulk st tmpl outs ins wb q draw r st',
+  exec bulk st (SConstruct add tmpl outs ins wb q draw) = (r, st') ->
+  static_ok (SConstruct add tmpl outs ins wb q draw) = true ->
+  (forall g, In g (ins ++ outs) -> has st g = true) -> q_ok q = true ->
+  (r = ROk \/ r = RErr ETemplate) /\
+  (r = ROk ->
+   exists gs i', produced (output_bindings tmpl) draw 0 (list_prod tmpl (q_rows q)) gs i' /\
+     (forall g, In g outs -> forall t, In t (getd st' g) <-> W add (concat gs) (getd st g) t)).
+Proof.
+  intros add bulk st tmpl outs ins wb q draw r st' H HS Hall Hq. rewrite exec_construct_unfold in H by exact HS.
+  destruct (x_construct add bulk no_faults (mkD st []) tmpl outs ins q draw) as [r0 d] eqn:E. inversion H; subst r0 st'. clear H.
+  pose proof (x_construct_nf _ _ _ _ _ _ _ _ _ _ E) as X. cbv zeta in X.
+  assert (A : forallb (has st) (ins ++ outs) = true) by (apply forallb_forall; exact Hall). rewrite A, Hq in X.
+  destruct (produce (output_bindings tmpl) tmpl (q_rows q) draw 0) as [sent okp] eqn:P. cbn [fst snd] in X. destruct X as [Hr Hc].
+  split; [destruct okp; auto|]. intro Hok. destruct okp; [|subst r; discriminate].
+  apply produce_ok in P. destruct P as [gs [i' [Hs Hp]]]. exists gs, i'. split; [exact Hp|]. subst sent. exact Hc.
+Qed.
+
+(* ------------------------------------------------------------------ rejected statements *)
+
+Lemma exec_static_reject : forall bulk st s, static_ok s = false -> exec bulk st s = (RErr EStatic, st).
+Proof. intros bulk st s H. unfold exec, xexec. rewrite H. reflexivity. Qed.
+
+(* a statement that names a graph that does not exist where Statement.Init resolves the names *)
+Definition init_graphs (s : stmt) : list str :=
+  match s with
+  | SConstruct _ _ outs ins _ _ _ => ins ++ outs
+  | SSelect ins _ _ _ => ins
+  | _ => []
+  end.
+
+Lemma exec_init_reject : forall bulk st s, static_ok s = true -> forallb (has st) (init_graphs s) = false ->
+  exec bulk st s = (RErr EInit, st).
+Proof.
+  intros bulk st s HS HI. unfold exec, xexec. rewrite HS. cbn [negb]. destruct s; cbn [init_graphs forallb] in HI; try discriminate.
+  - unfold x_construct. destruct (x_init no_faults (mkD st []) (ins ++ outs)) as [ok d1] eqn:E.
+    pose proof (x_init_store _ _ _ _ _ E) as S1. apply x_init_nf in E. cbn [d_store] in *. rewrite HI in E. subst ok. cbn. congruence.
+  - unfold x_select. destruct (x_init no_faults (mkD st []) ins) as [ok d1] eqn:E.
+    pose proof (x_init_store _ _ _ _ _ E) as S1. apply x_init_nf in E. cbn [d_store] in *. rewrite HI in E. subst ok. cbn. congruence.
+Qed.
+
+Lemma exec_query_fail : forall bulk st s, static_ok s = true -> forallb (has st) (init_graphs s) = true ->
+  (match s with SConstruct _ _ _ _ _ q _ | SSelect _ _ _ q => q_ok q = false | _ => False end) ->
+  exec bulk st s = (RErr EQuery, st).
+Proof.
+  intros bulk st s HS HI HQ. unfold exec, xexec. rewrite HS. cbn [negb]. destruct s; try contradiction; cbn [init_graphs] in HI.
+  - unfold x_construct. destruct (x_init no_faults (mkD st []) (ins ++ outs)) as [ok d1] eqn:E.
+    pose proof (x_init_store _ _ _ _ _ E) as S1. apply x_init_nf in E. cbn [d_store] in *. rewrite HI in E. subst ok. cbn [negb].
+    destruct (x_reads no_faults d1 (q_reads q)) as [okr d2] eqn:E2. pose proof (x_reads_store _ _ _ _ _ E2) as S2.
+    apply x_reads_nf in E2. subst okr. cbn [negb]. rewrite HQ. cbn. congruence.
+  - unfold x_select. destruct (x_init no_faults (mkD st []) ins) as [ok d1] eqn:E.
+    pose proof (x_init_store _ _ _ _ _ E) as S1. apply x_init_nf in E. cbn [d_store] in *. rewrite HI in E. subst ok. cbn [negb].
+    destruct (x_reads no_faults d1 (q_reads q)) as [okr d2] eqn:E2. pose proof (x_reads_store _ _ _ _ _ E2) as S2.
+    apply x_reads_nf in E2. subst okr. cbn [negb]. rewrite HQ. cbn. congruence.
+Qed.
+
+(* statements that only read *)
+Lemma exec_readonly : forall bulk st s, (match s with SSelect _ _ _ _ | SShow | SBad => True | _ => False end) ->
+  snd (exec bulk st s) = st.
+Proof.
+  intros bulk st s H. unfold exec. destruct (xexec bulk no_faults (mkD st []) s) as [r d] eqn:E. cbn [snd].
+  destruct s; try contradiction.
+  - unfold xexec in E. destruct (static_ok _); cbn [negb] in E; [|inversion E; reflexivity].
+    unfold x_select in E. destruct (x_init no_faults (mkD st []) ins) as [ok d1] eqn:E1. apply x_init_store in E1.
+    destruct ok; cbn [negb] in E; [|inversion E; subst; exact E1].
+    destruct (x_reads no_faults d1 (q_reads q)) as [okr d2] eqn:E2. apply x_reads_store in E2.
+    destruct okr; cbn [negb] in E; [|inversion E; subst; cbn in *; congruence].
+    destruct (q_ok q); inversion E; subst; cbn in *; congruence.
+  - inversion E; reflexivity.
+  - inversion E; reflexivity.
+Qed.
+
+Lemma exec_show_spec : forall bulk st, exec bulk st SShow = (RShow (names st), st).
+Proof. intros. reflexivity. Qed.
+
+(* ------------------------------------------------------------------ well-formedness is preserved (any schedule) *)
+
+Lemma apply_write_WF : forall add s n ts, WF s -> WF (apply_write add s n ts).
+Proof.
+  intros add s n ts H. unfold apply_write. apply WF_set_graph; [exact H|].
+  destruct add; [apply add_triples_NoDup | apply remove_triples_NoDup]; apply In_get_NoDup; exact H.
+Qed.
+
+Lemma x_update_WF : forall add sch ts gbs d ok d', x_update add sch d ts gbs = (ok, d') -> WF (d_store d) -> WF (d_store d').
+Proof.
+  intros add sch ts gbs. induction gbs as [|g r IH]; intros d ok d' H Hwf; cbn [x_update] in H.
+  - inversion H; subst. exact Hwf.
+  - destruct (d_graph sch d g) as [okg d1] eqn:E1.
+    assert (S1 : d_store d1 = d_store d) by (unfold d_graph in E1; inversion E1; reflexivity).
+    destruct (if okg then d_write add sch d1 g ts else (false, d1)) as [ok1 d2] eqn:E2.
+    destruct (x_update add sch d2 ts r) as [ok2 d3] eqn:E3. inversion H; subst. clear H.
+    apply (IH _ _ _ E3). destruct okg; [|inversion E2; subst; rewrite S1; exact Hwf].
+    unfold d_write in E2. destruct (sch _); inversion E2; subst; cbn [d_store]; rewrite ?S1; try exact Hwf;
+      apply apply_write_WF; rewrite ?S1; exact Hwf.
+Qed.
+
+Lemma writer_WF : forall add bulk sch outs sent d pending okacc p' ok' d',
+  writer add bulk sch d outs sent pending okacc = (p', ok', d') -> WF (d_store d) -> WF (d_store d').
+Proof.
+  intros add bulk sch outs sent. induction sent as [|t r IH]; intros d pending okacc p' ok' d' H Hwf; cbn [writer] in H.
+  - inversion H; subst. exact Hwf.
+  - destruct (bulk <=? length (pending ++ [t])).
+    + destruct (x_update add sch d (pending ++ [t]) outs) as [ok d1] eqn:E. apply x_update_WF in E; [|exact Hwf].
+      apply (IH _ _ _ _ _ _ H E).
+    + apply (IH _ _ _ _ _ _ H Hwf).
+Qed.
+
+Lemma xexec_WF : forall bulk sch d s r d', xexec bulk sch d s = (r, d') -> WF (d_store d) -> WF (d_store d').
+Proof.
+  intros bulk sch d s r d' H Hwf. unfold xexec in H.
+  destruct (static_ok s); cbn [negb] in H; [|inversion H; subst; exact Hwf].
+  destruct s.
+  - destruct (x_create sch d gs) as [ok d1] eqn:E. inversion H; subst. clear H. revert d ok d' E Hwf.
+    induction gs as [|n gs IH]; intros d ok d' E Hwf; cbn [x_create] in E; [inversion E; subst; exact Hwf|].
+    destruct (d_new_graph sch d n) as [ok1 d1] eqn:E1. destruct (x_create sch d1 gs) as [ok2 d2] eqn:E2.
+    inversion E; subst. apply (IH _ _ _ E2). unfold d_new_graph in E1. destruct (is_fail _); [inversion E1; subst; exact Hwf|].
+    destruct (new_graph (d_store d) n) as [s'|] eqn:N; inversion E1; subst; cbn [d_store]; [|exact Hwf].
+    eapply WF_new_graph; eassumption.
+  - destruct (x_drop sch d gs) as [ok d1] eqn:E. inversion H; subst. clear H. revert d ok d' E Hwf.
+    induction gs as [|n gs IH]; intros d ok d' E Hwf; cbn [x_drop] in E; [inversion E; subst; exact Hwf|].
+    destruct (d_delete_graph sch d n) as [ok1 d1] eqn:E1. destruct (x_drop sch d1 gs) as [ok2 d2] eqn:E2.
+    inversion E; subst. apply (IH _ _ _ E2). unfold d_delete_graph in E1. destruct (is_fail _); [inversion E1; subst; exact Hwf|].
+    destruct (delete_graph (d_store d) n) as [s'|] eqn:N; inversion E1; subst; cbn [d_store]; [|exact Hwf].
+    eapply WF_delete_graph; eassumption.
+  - destruct (x_update true sch d ts outs) as [ok d1] eqn:E. inversion H; subst. eapply x_update_WF; eassumption.
+  - destruct (x_update false sch d ts ins) as [ok d1] eqn:E. inversion H; subst. eapply x_update_WF; eassumption.
+  - unfold x_construct in H.
+    destruct (x_init sch d (ins ++ outs)) as [ok d1] eqn:E1. apply x_init_store in E1.
+    destruct ok; cbn [negb] in H; [|inversion H; subst; rewrite E1; exact Hwf].
+    destruct (x_reads sch d1 (q_reads q)) as [okr d2] eqn:E2. apply x_reads_store in E2.
+    destruct okr; cbn [negb] in H; [|inversion H; subst; rewrite E2, E1; exact Hwf].
+    destruct (q_ok q); cbn [negb] in H; [|inversion H; subst; rewrite E2, E1; exact Hwf].
+    destruct (produce _ _ _ _ _) as [sent okp].
+    destruct (writer add bulk sch d2 outs sent [] true) as [[pending okw] d3] eqn:E3.
+    apply writer_WF in E3; [|rewrite E2, E1; exact Hwf].
+    destruct (if is_empty pending then (true, d3) else x_update add sch d3 pending outs) as [okf d4] eqn:E4.
+    assert (W4 : WF (d_store d4)).
+    { destruct (is_empty pending); [inversion E4; subst; exact E3 | eapply x_update_WF; eassumption]. }
+    destruct okp; inversion H; subst; exact W4.
+  - unfold x_select in H. destruct (x_init sch d ins) as [ok d1] eqn:E1. apply x_init_store in E1.
+    destruct ok; cbn [negb] in H; [|inversion H; subst; rewrite E1; exact Hwf].
+    destruct (x_reads sch d1 (q_reads q)) as [okr d2] eqn:E2. apply x_reads_store in E2.
+    destruct okr; cbn [negb] in H; [|inversion H; subst; rewrite E2, E1; exact Hwf].
+    destruct (q_ok q); inversion H; subst; rewrite E2, E1; exact Hwf.
+  - unfold x_show, d_graph_names in H. destruct (sch _); inversion H; subst; exact Hwf.
+  - inversion H; subst; exact Hwf.
+Qed.
+
+(* ------------------------------------------------------------------ sequences of statements *)
+
+Lemma exec_frame : forall bulk st s g, ~ In g (targets s) -> get (step bulk st s) g = get st g.
+Proof.
+  intros bulk st s g Hg. unfold step, exec. destruct (xexec bulk no_faults (mkD st []) s) as [r d] eqn:E. cbn [snd].
+  apply (xexec_frame _ _ _ _ _ _ E g Hg).
+Qed.
+
+Lemma run_app : forall bulk st a b, run bulk st (a ++ b) = run bulk (run bulk st a) b.
+Proof. intros. unfold run. apply fold_left_app. Qed.
+
+Lemma run_frame : forall bulk ss st g, (forall s, In s ss -> ~ In g (targets s)) -> get (run bulk st ss) g = get st g.
+Proof.
+  intros bulk ss. induction ss as [|s ss IH]; intros st g H; [reflexivity|].
+  unfold run. cbn [fold_left]. fold (run bulk (step bulk st s) ss).
+  rewrite IH by (intros s' Hs'; apply H; right; exact Hs'). apply exec_frame. apply H. left. reflexivity.
+Qed.
+
+Lemma step_WF : forall bulk st s, WF st -> WF (step bulk st s).
+Proof.
+  intros bulk st s H. unfold step, exec. destruct (xexec bulk no_faults (mkD st []) s) as [r d] eqn:E. cbn [snd].
+  apply (xexec_WF _ _ _ _ _ _ E H).
+Qed.
+
+Lemma run_WF : forall bulk ss st, WF st -> WF (run bulk st ss).
+Proof.
+  intros bulk ss. induction ss as [|s ss IH]; intros st H; [exact H|].
+  unfold run. cbn [fold_left]. apply IH. apply step_WF. exact H.
+Qed.
+
+(* rejected before execution starts: by the parser / semantic checks, or by Statement.Init *)
+Definition rejected (st : store) (s : stmt) : bool :=
+  negb (static_ok s) || negb (forallb (has st) (init_graphs s)).
+
+Lemma rejected_step : forall bulk st s, rejected st s = true ->
+  step bulk st s = st /\ exists e, fst (exec bulk st s) = RErr e.
+Proof.
+  intros bulk st s H. unfold rejected in H. unfold step. destruct (static_ok s) eqn:HS.
+  - cbn in H. apply negb_true_iff in H. rewrite (exec_init_reject bulk st s HS H). split; [reflexivity | eexists; reflexivity].
+  - rewrite (exec_static_reject bulk st s HS). split; [reflexivity | eexists; reflexivity].
+Qed.
+
+Lemma run_rejected : forall bulk st ss1 s ss2, rejected (run bulk st ss1) s = true ->
+  run bulk st (ss1 ++ s :: ss2) = run bulk st (ss1 ++ ss2).
+Proof.
+  intros bulk st ss1 s ss2 H. rewrite !run_app. unfold run at 1. cbn [fold_left].
+  destruct (rejected_step bulk _ s H) as [E _]. rewrite E. reflexivity.
+Qed.
+
+(* ------------------------------------------------------------------ the counter supply is fresh *)
+Lemma max_id_ge : forall l k, In k l -> (k <= max_id l)%N.
+Proof.
+  induction l as [|x l IH]; intros k H; [destruct H|]. cbn [max_id fold_right]. destruct H as [H|H].
+  - subst. apply N.le_max_l.
+  - apply N.le_trans with (m := max_id l); [apply IH; exact H | apply N.le_max_r].
+Qed.
+
+Lemma counter_supply_fresh : forall old, fresh_supply old (counter_supply old).
+Proof.
+  intros old. split.
+  - intros i H. apply max_id_ge in H. unfold counter_supply in H. lia.
+  - intros i j H. unfold counter_supply in H. lia.
+Qed.
